@@ -1,7 +1,7 @@
 ----------------------------- MODULE Trace_Comp -----------------------------
 (* Trace specification for the component recorders (h_comp): every event is one atomic observation *)
 (* of a public component and must be a result the abstract specification (Components.tla) allows.   *)
-EXTENDS Components, Json, IOUtils
+EXTENDS CollOps, Json, IOUtils
 Tr == ndJsonDeserialize(IOEnv.TRACE)
 VARIABLES l
 GraphOf(ev) == [n |-> ev.n, edges |-> ev.edges]
@@ -17,8 +17,20 @@ Viol(ev) ==
          [] ev.e = "Coll" -> CollViol(g, ev.horton, ev.fvs, ev.iso)
          [] ev.e = "Crash" -> {"crash"}
          [] OTHER -> {"unknown-event"}
+\* Diagnostic binding of the implementation-shaped model Collections.tla to the code (never a verdict: a refactoring may
+\* legitimately choose other shortest paths or other representatives): are the recorded Horton / isometric candidates
+\* exactly those the model derives from the canonical lexicographic trees?
+CollDiag(ev) ==
+  LET g == GraphOf(ev)
+      tr == TreesOf(g)
+      H == HortonSeq(g, tr)
+  IN   (IF CandPairs(ev.horton) # {H[i] : i \in 1..Len(H)} THEN {"horton-set-differs-from-model"} ELSE {})
+  \cup (IF CandPairs(ev.iso) # IsoOut(g, tr) THEN {"iso-set-differs-from-model"} ELSE {})
+DiagN == IF "DIAGN" \in DOMAIN IOEnv THEN atoi(IOEnv.DIAGN) ELSE 4        \* size limit for the (expensive) model comparison
+Diag(ev) == IF ev.e = "Coll" /\ InDomain(GraphOf(ev)) /\ ev.n <= DiagN /\ ev.wt = "double"
+              THEN PrintT(<<"DIAG", l, CollDiag(ev)>>) ELSE TRUE
 TInit == l = 1
-TNext == l <= Len(Tr) /\ l' = l + 1 /\ Report(Viol(Tr[l]))
+TNext == l <= Len(Tr) /\ l' = l + 1 /\ Report(Viol(Tr[l])) /\ Diag(Tr[l])
 TSpec == TInit /\ [][TNext]_l
 Accepted == TLCGet("stats").diameter - 1 = Len(Tr)
 =============================================================================
